@@ -211,6 +211,11 @@ func Dict(t *rapid.T, depth, width int) *recipe.Node {
 
 // ---- plausible programs: small, mostly valid Go built from the DSL ----
 
+// UniqueKeys keeps the key texts of generated map literals distinct. Pairs whose keys render the same text
+// are ordered by the rest of their content, so a check that changes that content (comments injected into the
+// values) and expects the order to stay must switch the duplicates off.
+var UniqueKeys bool
+
 // Expr draws a plausible expression.
 func Expr(t *rapid.T, depth int) *recipe.Node {
 	if depth <= 0 {
@@ -246,7 +251,7 @@ func Expr(t *rapid.T, depth int) *recipe.Node {
 		k := rapid.IntRange(0, 3).Draw(t, "nkv")
 		for i := 0; i < k; i++ {
 			suffix := strings.Repeat("_", i)
-			if rapid.IntRange(0, 2).Draw(t, "maydup") == 0 {
+			if rapid.IntRange(0, 2).Draw(t, "maydup") == 0 && !UniqueKeys {
 				// (the key text may then repeat an earlier one: gofmt does not mind, and the output is still a
 				// function of the pairs)
 				suffix = ""
